@@ -504,7 +504,7 @@ func runSize(t *testing.T, n, quick, thorough int) {
 		stats.Count("subsets_ge_k_checked", int64(nSub))
 		stats.Count("subsets_k_minus_1_checked", int64(nBelow))
 		stats.Count("recoveries", int64(nRec))
-		stats.Count(fmt.Sprintf("subsets_per_instance_n%02d", n), int64(nSub))
+		stats.Count(fmt.Sprintf("subsets_ge_k_total_n%02d", n), int64(nSub))
 	})
 }
 
@@ -529,8 +529,8 @@ func TestSizeN05(t *testing.T) { sizeTest(t, 5, 8, 60) }
 func TestSizeN06(t *testing.T) { sizeTest(t, 6, 8, 60) }
 func TestSizeN07(t *testing.T) { sizeTest(t, 7, 8, 60) }
 func TestSizeN08(t *testing.T) { sizeTest(t, 8, 5, 40) }
-func TestSizeN09(t *testing.T) { sizeTest(t, 9, 5, 40) }
-func TestSizeN10(t *testing.T) { sizeTest(t, 10, 5, 40) }
+func TestSizeN09(t *testing.T) { sizeTest(t, 9, 4, 40) }
+func TestSizeN10(t *testing.T) { sizeTest(t, 10, 4, 40) }
 
 // TestSizeOther covers group sizes outside 3..10 if the limits are ever changed (n drawn).
 func TestSizeOther(t *testing.T) {
